@@ -113,7 +113,8 @@ func New(maxConcurrent int, chQqueueSize int, v ...interface{}) *TaskPool {
 				if tp.fork(f) {
 					continue
 				}
-
+				// fork has counted a worker that was not started.
+				atomic.AddInt64(&tp.concurrent, -1)
 				if f != nil {
 					tp.caller(f)
 				}
